@@ -505,6 +505,21 @@ func checkDiffCost(cfg *world.Config, o, n *version) []explore.Finding {
 	measure("DiffIter", func() error {
 		return n.t.DiffIter(ctx, o.t, func(a, r bool, k, av, rv interface{}) (bool, error) { return true, nil })
 	})
+	measure("StartDiff/NextEntry", func() error {
+		dc, err := n.t.StartDiff(ctx, o.t)
+		if err != nil {
+			return err
+		}
+		for i := 0; i < 100000; i++ {
+			if _, err := dc.NextEntry(ctx); err != nil {
+				if err == mast.ErrNoMoreDiffs {
+					return nil
+				}
+				return err
+			}
+		}
+		return nil
+	})
 	measure("DiffLinks", func() error {
 		return n.t.DiffLinks(ctx, o.t, func(r bool, l interface{}) (bool, error) { return true, nil })
 	})
